@@ -52,7 +52,10 @@ inf := inf * inf * inf * inf * inf * inf * inf * inf * inf
 g := e + 1
 `},
 	// call stack depth 3 at line 2
-	"nest": {Src: "nest", BP: 2, BP2: 7, Text: `func h(z) {
+	"nest": {Src: "nest", BP: 5, BP2: 10, Text: `func plain(a) {
+  return a + 1
+}
+func h(z) {
   w := z + 1
   q := {"m": [w], 2: z}
   return w
